@@ -32,18 +32,28 @@ def exec_case(case):
     g = dict(case["given"])
     events = []
     for ev in case["events"]:
-        e = {"op": "tutte", "mode": ev["mode"], "cotan": ev["cotan"], "after_other": ev.get("after_other", 0), "exc": "", "uvV": [], "uvC": [], "bq": [], "sg": []}
+        e = {"op": "tutte", "mode": ev["mode"], "cotan": ev["cotan"], "after_other": ev.get("after_other", 0), "via_custom": ev.get("via_custom", 0), "honoured": 1, "exc": "", "uvV": [], "uvC": [], "bq": [], "sg": []}
         try:
             m = meshes.build_surface(len(g["P"]), g["F"], coords=g["P"])
             g["E"] = [[int(a), int(b)] for a, b in m.edges]
             if ev.get("after_other", 0):
                 # history: the same mesh object was embedded before with the OTHER weights (whatever that run left on the mesh must not leak)
                 M.parametrization.TutteEmbedding(m, boundary_mode=ev["mode"], use_cotan=not bool(ev["cotan"]), save_on_corners=False).run()
-            tv = M.parametrization.TutteEmbedding(m, boundary_mode=ev["mode"], use_cotan=bool(ev["cotan"]), save_on_corners=False)
+            if ev.get("via_custom", 0):
+                # the positions the circle mode would give, handed back as a custom boundary (row k belongs to mesh.boundary_vertices[k]): same embedding expected
+                ref = M.parametrization.TutteEmbedding(meshes.build_surface(len(g["P"]), g["F"], coords=g["P"]), boundary_mode="circle", use_cotan=bool(ev["cotan"]), save_on_corners=False)
+                ref.run()
+                arr = np.array([[float(ref.uvs[int(v)][0]), float(ref.uvs[int(v)][1])] for v in m.boundary_vertices])
+                tv = M.parametrization.TutteEmbedding(m, use_cotan=bool(ev["cotan"]), save_on_corners=False, custom_boundary=arr)
+            else:
+                tv = M.parametrization.TutteEmbedding(m, boundary_mode=ev["mode"], use_cotan=bool(ev["cotan"]), save_on_corners=False)
             tv.run()
             uv = [np.asarray(tv.uvs[i], dtype=float) for i in range(len(m.vertices))]
+            if ev.get("via_custom", 0):        # row k of the custom array is the position of mesh.boundary_vertices[k]
+                e["honoured"] = int(all(abs(uv[int(v)][0] - arr[k][0]) < 1e-12 and abs(uv[int(v)][1] - arr[k][1]) < 1e-12 for k, v in enumerate(m.boundary_vertices)))
             m2 = meshes.build_surface(len(g["P"]), g["F"], coords=g["P"])
-            tc = M.parametrization.TutteEmbedding(m2, boundary_mode=ev["mode"], use_cotan=bool(ev["cotan"]), save_on_corners=True)
+            tc = M.parametrization.TutteEmbedding(m2, boundary_mode=ev["mode"], use_cotan=bool(ev["cotan"]), save_on_corners=True,
+                                                  **({"custom_boundary": arr} if ev.get("via_custom", 0) else {}))
             tc.run()
             e["uvV"] = [[_fix(p[0]), _fix(p[1])] for p in uv]
             e["uvC"] = [[_fix(tc.uvs[c][0]), _fix(tc.uvs[c][1])] for c in range(len(m2.face_corners))]
@@ -66,6 +76,24 @@ def fan(n, chords=0):
     P = [[0, 0, 0]] + [[int(round(10 * math.cos(2 * math.pi * k / n))), int(round(10 * math.sin(2 * math.pi * k / n))), 0] for k in range(n)]
     F = [[0, 1 + k, 1 + (k + 1) % n] for k in range(n)]
     return P, F
+
+
+def rings(shift):
+    """a disk of 41 vertices: hub, rings of 8, 16 and 16 (the border); `shift` rotates the numbering so that the border ids can be the last, the first, ..."""
+    ring = lambda n, r: [[int(round(r * 100 * math.cos(2 * math.pi * k / n))), int(round(r * 100 * math.sin(2 * math.pi * k / n))), 0] for k in range(n)]
+    P = [[0, 0, 0]] + ring(8, 1) + ring(16, 2) + ring(16, 3)
+    r1, r2, r3 = list(range(1, 9)), list(range(9, 25)), list(range(25, 41))
+    F = [[0, r1[i], r1[(i + 1) % 8]] for i in range(8)]
+    for i in range(8):
+        F += [[r1[i], r2[2 * i], r2[2 * i + 1]], [r1[i], r2[2 * i + 1], r1[(i + 1) % 8]], [r1[(i + 1) % 8], r2[2 * i + 1], r2[(2 * i + 2) % 16]]]
+    for j in range(16):
+        F += [[r2[j], r3[j], r3[(j + 1) % 16]], [r2[j], r3[(j + 1) % 16], r2[(j + 1) % 16]]]
+    n = len(P)
+    perm = [(v + shift) % n for v in range(n)]
+    P2 = [None] * n
+    for old, new in enumerate(perm):
+        P2[new] = P[old]
+    return P2, [[perm[v] for v in f] for f in F]
 
 
 def strip(n):
@@ -109,15 +137,19 @@ def run(ctx):
     shapes.append(("closed-cube", [[0, 0, 0], [2, 0, 0], [2, 2, 0], [0, 2, 0], [0, 0, 2], [2, 0, 2], [2, 2, 2], [0, 2, 2]],
                    [[0, 2, 1], [0, 3, 2], [0, 1, 5], [0, 5, 4], [1, 2, 6], [1, 6, 5], [2, 3, 7], [2, 7, 6], [3, 0, 4], [3, 4, 7], [4, 5, 6], [4, 6, 7]]))
     shapes.append(("annulus", [[0, 0, 0], [6, 0, 0], [3, 6, 0], [2, 1, 0], [4, 1, 0], [3, 3, 0]], [[0, 1, 3], [1, 4, 3], [1, 2, 4], [2, 5, 4], [2, 0, 5], [0, 3, 5]]))
+    for sh in (0, 20):
+        P, F = rings(sh)
+        shapes.append(("rings-shift%d" % sh, P, F))
     cases = []
     for i, (fam, P, F) in enumerate(shapes):
         evs = [{"mode": md, "cotan": ct, "after_other": ao} for md in ("circle", "square") for ct in (0, 1) for ao in (0, 1) if ao == 0 or ct == 0 or md == "circle"]
+        evs += [{"mode": "circle", "cotan": ct, "after_other": 0, "via_custom": 1} for ct in ((0, 1) if fam.startswith("rings") or i % 4 == 0 else ())]
         cases.append({"id": "%s-%d" % (fam, i), "given": {"P": P, "F": F, "family": fam.split("-")[0]}, "events": evs})
     obs = ctx.execute("c17", "exec_case", cases, chunksize=4)
     ctx.judge("C17_Trace", "C17_Trace.cfg", obs, "tutte", "c17", "exec_case", batch_events=60)
     ctx.exhaustive = False
     ctx.assumptions += [
-        "custom boundaries are the caller's responsibility and are not driven",
+        "custom boundaries: only the positions the circle mode would give, handed back in mesh.boundary_vertices order (the same embedding is expected)",
         "the weighted-mean condition is judged in fixed point (10^-6) and, for cotangent weights, only where they are multiples of 1/2 (lattice right triangles)",
         "orientation signs are computed exactly from the returned floats (Fraction) by the harness; TLC only demands that they are equal and non-zero",
         "conditioning of the sparse solve on large meshes is not decided",
